@@ -6,7 +6,8 @@ from driver import ScanProperty
 
 class C05(ScanProperty):
     ID = 'C05'
-    THEOREMS = [('Properties.C05', ['C05_selection', 'C05_selection_generic', 'C05_mode_okb_sound', 'C05_nonvacuous'])]
+    THEOREMS = [('Properties.C05', ['C05_selection', 'C05_selection_generic', 'C05_first_among_maximal', 'C05_find_equals_specification',
+                                    'C05_mode_okb_sound', 'C05_nonvacuous'])]
     COQ_TARGETS = ['Properties/C05.vo']
     ASSUMPTIONS = ['accepting token types of every automaton are listed in its terminal_ids (mode_okb, checked on every dump)',
                    'token types inside one mode are distinct (known finding D8 otherwise) and below 2^32 (D9)',
